@@ -394,3 +394,159 @@ pub(crate) const SM9_TWIST_POINT_MONT_P2: TwistPoint = TwistPoint {
     },
 };
 
+
+#[cfg(gm_rs_verif)]
+pub mod verif_hooks {
+    //! Verification builds only: access to crate-private arithmetic, constants, the fixed-base table, the pairing,
+    //! and a thread-local override / recorder for the candidates of `sm9_random_u256`.
+    use crate::u256::U256;
+    use std::cell::RefCell;
+    use std::collections::VecDeque;
+
+    pub use crate::fields::fp12::Fp12;
+    pub use crate::fields::fp2::Fp2;
+    pub use crate::fields::fp4::Fp4;
+    pub use crate::fields::FieldElement;
+    use crate::points::{Point, TwistPoint};
+
+    pub fn consts() -> Vec<(&'static str, U256)> {
+        vec![
+            ("P", crate::SM9_P),
+            ("P_MINUS_ONE", crate::SM9_P_MINUS_ONE),
+            ("P_MINUS_TWO", crate::SM9_P_MINUS_TWO),
+            ("P_PRIME", crate::SM9_P_PRIME),
+            ("MODP_2E512", crate::SM9_MODP_2E512),
+            ("MODP_MONT_ONE", crate::SM9_MODP_MONT_ONE),
+            ("MODP_MONT_FIVE", crate::SM9_MODP_MONT_FIVE),
+            ("MONT_ALPHA1", crate::SM9_MONT_ALPHA1),
+            ("MONT_ALPHA2", crate::SM9_MONT_ALPHA2),
+            ("MONT_ALPHA3", crate::SM9_MONT_ALPHA3),
+            ("MONT_ALPHA4", crate::SM9_MONT_ALPHA4),
+            ("MONT_ALPHA5", crate::SM9_MONT_ALPHA5),
+            ("MONT_BETA_C0", crate::SM9_MONT_BETA.c0),
+            ("MONT_BETA_C1", crate::SM9_MONT_BETA.c1),
+            ("N", crate::SM9_N),
+            ("N_NEG", crate::SM9_N_NEG),
+            ("N_MINUS_ONE", crate::SM9_N_MINUS_ONE),
+            ("N_MINUS_TWO", crate::SM9_N_MINUS_TWO),
+            ("N_MINUS_ONE_BARRETT_MU", crate::SM9_U256_N_MINUS_ONE_BARRETT_MU),
+            ("P1_X", crate::SM9_POINT_MONT_P1.x),
+            ("P1_Y", crate::SM9_POINT_MONT_P1.y),
+            ("P1_Z", crate::SM9_POINT_MONT_P1.z),
+            ("P2_X0", crate::SM9_TWIST_POINT_MONT_P2.x.c0),
+            ("P2_X1", crate::SM9_TWIST_POINT_MONT_P2.x.c1),
+            ("P2_Y0", crate::SM9_TWIST_POINT_MONT_P2.y.c0),
+            ("P2_Y1", crate::SM9_TWIST_POINT_MONT_P2.y.c1),
+            ("P2_Z0", crate::SM9_TWIST_POINT_MONT_P2.z.c0),
+            ("P2_Z1", crate::SM9_TWIST_POINT_MONT_P2.z.c1),
+        ]
+    }
+    pub fn barrett_mu() -> [u64; 5] {
+        crate::SM9_N_BARRETT_MU
+    }
+    pub fn hid() -> [u8; 5] {
+        [crate::SM9_HID_SIGN, crate::SM9_HID_EXCH, crate::SM9_HID_ENC, crate::SM9_HASH1_PREFIX, crate::SM9_HASH2_PREFIX]
+    }
+    pub fn precomputed() -> &'static [[[u64; 4]; 128]; 37] {
+        &crate::sm9_p256_table::SM9_P256_PRECOMPUTED
+    }
+    pub fn fp2(c0: U256, c1: U256) -> Fp2 {
+        Fp2 { c0, c1 }
+    }
+    pub fn fp2_parts(a: &Fp2) -> [U256; 2] {
+        [a.c0, a.c1]
+    }
+    pub fn fp4(c0: Fp2, c1: Fp2) -> Fp4 {
+        Fp4 { c0, c1 }
+    }
+    pub fn fp4_parts(a: &Fp4) -> [Fp2; 2] {
+        [a.c0, a.c1]
+    }
+    pub fn fp12(c0: Fp4, c1: Fp4, c2: Fp4) -> Fp12 {
+        Fp12 { c0, c1, c2 }
+    }
+    pub fn fp12_parts(a: &Fp12) -> [Fp4; 3] {
+        [a.c0, a.c1, a.c2]
+    }
+    pub fn fp_pow(a: &U256, e: &U256) -> U256 {
+        crate::fields::fp::fp_pow(a, e)
+    }
+    pub fn fp2_ops(op: &str, a: &Fp2, b: &Fp2) -> Fp2 {
+        match op {
+            "div" => a.div(b),
+            "conjugate" => a.conjugate(),
+            "a_mul_u" => a.a_mul_u(),
+            "mul_u" => a.fp_mul_u(b),
+            "sqr_u" => a.sqr_u(),
+            "mul_fp" => a.fp_mul_fp(&b.c0),
+            _ => panic!("bad fp2 op"),
+        }
+    }
+    pub fn fp4_ops(op: &str, a: &Fp4, b: &Fp4) -> Fp4 {
+        match op {
+            "mul_v" => a.fp_mul_v(b),
+            "a_mul_v" => a.a_mul_v(),
+            "conjugate" => a.conjugate(),
+            "sqr_v" => a.sqr_v(),
+            "mul_fp" => a.fp_mul_fp(&b.c0.c0),
+            "mul_fp2" => a.fp_mul_fp2(&b.c0),
+            _ => panic!("bad fp4 op"),
+        }
+    }
+    pub fn fp12_ops(op: &str, a: &Fp12, e: &U256, lw: &[Fp2; 3]) -> Fp12 {
+        match op {
+            "pow" => a.pow(e),
+            "frobenius2" => a.fp12_frobenius2(),
+            "frobenius6" => a.fp12_frobenius6(),
+            "final_exponent" => a.final_exponent(),
+            "final_exponent_hard_part" => a.final_exponent_hard_part(),
+            "line_mul" => a.fp_line_mul(lw),
+            _ => panic!("bad fp12 op"),
+        }
+    }
+    pub fn pairing(q: &TwistPoint, p: &Point) -> Fp12 {
+        crate::points::sm9_u256_pairing(q, p)
+    }
+    pub fn twist_add_full(a: &TwistPoint, b: &TwistPoint) -> TwistPoint {
+        crate::points::twist_point_add_full(a, b)
+    }
+    pub fn point_pi1(q: &TwistPoint) -> TwistPoint {
+        q.point_pi1()
+    }
+    pub fn point_neg_pi2(q: &TwistPoint) -> TwistPoint {
+        q.point_neg_pi2()
+    }
+    pub fn point_from_bytes(b: &[u8]) -> Point {
+        Point::from_bytes(b)
+    }
+
+    thread_local! {
+        static QUEUE: RefCell<VecDeque<[u8; 32]>> = RefCell::new(VecDeque::new());
+        static LOG: RefCell<Vec<U256>> = RefCell::new(Vec::new());
+    }
+    /// queue a 32-byte candidate that replaces the next RNG output on this thread
+    pub fn push_candidate(c: [u8; 32]) {
+        QUEUE.with(|q| q.borrow_mut().push_back(c));
+    }
+    pub fn clear() {
+        QUEUE.with(|q| q.borrow_mut().clear());
+        LOG.with(|l| l.borrow_mut().clear());
+    }
+    pub fn queued() -> usize {
+        QUEUE.with(|q| q.borrow().len())
+    }
+    /// scalars accepted by `sm9_random_u256` on this thread since the last call
+    pub fn take_log() -> Vec<U256> {
+        LOG.with(|l| std::mem::take(&mut *l.borrow_mut()))
+    }
+    pub(crate) fn override_candidate(buf: &mut [u8; 32]) {
+        QUEUE.with(|q| {
+            if let Some(c) = q.borrow_mut().pop_front() {
+                *buf = c;
+            }
+        });
+    }
+    pub(crate) fn record(v: &U256) {
+        LOG.with(|l| l.borrow_mut().push(*v));
+    }
+}
